@@ -128,6 +128,30 @@ def check(F, R, Gm):
             if l.isalpha():
                 R.ob("G-BOUNDARY", "%s:%s" % (r, l), boundary and Gm.ty(r) == "Atomic", where,
                      "alphabetic operator %r must be atomic and followed by !(LETTER|NUMBER|\"_\") so that identifiers starting with it stay identifiers" % l)
+    # every other rule below exp_leaf that matches nothing but alphabetic words (the boolean literal): a leaf alternative
+    # that is tried before `variable` and ends inside an identifier splits the identifier (`truex` = `true` then `x`)
+    below = set()
+    todo = ["exp_leaf"] if "exp_leaf" in Gm.rules else []
+    while todo:
+        r_ = todo.pop()
+        if r_ in below or r_ not in Gm.rules:
+            continue
+        below.add(r_)
+        for n_ in walk(Gm.expr(r_)):
+            if isinstance(n_, dict) and n_.get("k") == "Ident":
+                todo.append(n_["v"])
+    for r_ in sorted(below):
+        if r_ in DOC_LITERALS or r_ == "keyword":
+            continue
+        ex_ = G_.exact_literals(Gm, Gm.expr(r_))
+        if not ex_:
+            continue
+        words = [(l_, b_) for l_, b_ in ex_ if l_.lstrip("^").isalpha()]
+        if len(words) != len(ex_):
+            continue
+        for l_, b_ in words:
+            R.ob("G-BOUNDARY", "%s:%s" % (r_, l_), b_ and Gm.ty(r_) == "Atomic", "grammar.pest:" + r_,
+                 "the word %r of rule %s is an expression leaf: it must be atomic and followed by !(LETTER|NUMBER|\"_\"), else an identifier that starts with it is split (`%sx + 1 >= 0` reads as `%s` and `x + 1 >= 0`)" % (l_, r_, l_.lstrip("^"), l_.lstrip("^")), positive=True)
     # keyword rule
     kw = G_.exact_literals(Gm, Gm.expr("keyword")) if "keyword" in Gm.rules else None
     R.ob("G-BOUNDARY", "keyword:atomic+boundary", kw is not None and all(b for _, b in kw) and Gm.ty("keyword") == "Atomic", "grammar.pest:keyword",
